@@ -780,6 +780,33 @@ theorem network_good_scheduled (N : Net) (wf : N.WF) (steps : List GStep) (hok :
     KV.Agree.Good (valsOf N.powers) (pwOf N.powers) N.F (atH h (grun N (gstart N) steps).tr) :=
   network_good_from N wf _ (gstart_inv N) steps (gok_of_scheduled wf steps _ (gstart_inv N) hok) h
 
+/-! ### no stale lock at any node (F36) -/
+
+/-- **stale_lock_never_persists (network).** In every execution of the network, at every node that
+satisfied it before: `Cs.NoStale` — a locked node holds no +2/3 prevote majority for another value
+at a round in `(lockedRound, round]` -/
+theorem stale_lock_never_persists_from (N : Net) (wf : N.WF) : ∀ (steps : List GStep) (g : GState),
+    GInv N g → (∀ i, NoStale (N.cfg i) (g.st i)) → GOk N g steps →
+    ∀ i, NoStale (N.cfg i) ((grun N g steps).st i)
+  | [], _, _, hN, _ => hN
+  | s :: rest, g, G, hN, hok => by
+    apply stale_lock_never_persists_from N wf rest _ (gstep_inv wf G s hok.1) ?_ hok.2
+    intro i
+    show NoStale (N.cfg i) (if i = s.1 then step (N.cfg s.1) (g.st s.1) s.2.1 s.2.2 else g.st i)
+    split
+    · rename_i e
+      subst e
+      exact step_noStale (G.inv _) (hN _) _ _ hok.1.2.1
+    · exact hN i
+
+theorem gstart_noStale (N : Net) (i : Nat) : NoStale (N.cfg i) ((gstart N).st i) := NoStale.of_unlocked rfl
+
+/-- from `gstart`, timeouts the scheduled ones -/
+theorem stale_lock_never_persists_network (N : Net) (wf : N.WF) (steps : List GStep)
+    (hok : GOkS N (gstart N) steps) (i : Nat) : NoStale (N.cfg i) ((grun N (gstart N) steps).st i) :=
+  stale_lock_never_persists_from N wf steps _ (gstart_inv N) (gstart_noStale N)
+    (gok_of_scheduled wf steps _ (gstart_inv N) hok) i
+
 /-! ### the hypotheses are decidable on concrete executions -/
 
 instance (N : Net) (tr : List HEv) : (inp : Input) → Decidable (Auth N tr inp)
